@@ -60,6 +60,22 @@ func c05RunResolve(r *vrep.R, rc c05ResolveCase) {
 		}
 	}
 	r.Outcome(fmt.Sprintf("resolve:%d-operators", len(got)))
+	// the selected operators list is shared by every member (seat) the node runs in this
+	// group: the call must leave it as it was, and the same question asked again (the
+	// node's next seat) must get the same answer, which must not change under the first
+	if c05OpsString(sel) != c05OpsString(orig) {
+		r.ViolationMin("seq:resolve-changed-selection", len(rc.IDs), fp,
+			fmt.Sprintf("resolveGroupOperators(%s, %v) rewrote the selected operators list it was given: now %q", rc.Selected, rc.IDs, c05OpsString(sel)),
+			map[string]any{"resolve": rc})
+	} else {
+		first := c05OpsString(got)
+		again, err2 := resolveGroupOperators(sel, append([]group.MemberIndex{}, rc.IDs...), c05Config())
+		if err2 != nil || c05OpsString(again) != first || c05OpsString(got) != first {
+			r.ViolationMin("seq:resolve-not-repeatable", len(rc.IDs), fp,
+				fmt.Sprintf("asked twice over the same selection, resolveGroupOperators(%s, %v) answered %q, then %q (err %v); the first answer now reads %q", rc.Selected, rc.IDs, first, c05OpsString(again), err2, c05OpsString(got)),
+				map[string]any{"resolve": rc})
+		}
+	}
 	if c05OpsString(got) != c05OpsString(want) {
 		r.ViolationMin("seq:resolve-wrong-operators", len(rc.IDs), fp,
 			fmt.Sprintf("resolveGroupOperators(%s, %v) = %q, the selected operators of those members in member-index order are %q", rc.Selected, rc.IDs, c05OpsString(got), c05OpsString(want)),
